@@ -830,7 +830,18 @@ def identity_only(ctx, o):
         in_event_lt = c is not None and c.name == 'Event' and fn.name in ('__lt__', '__gt__', '__le__', '__ge__')
         for x in ast.walk(fn):
             if isinstance(x, ast.Compare) and any(isinstance(op, (ast.Lt, ast.LtE, ast.Gt, ast.GtE)) for op in x.ops):
-                hits = [h for e in [x.left] + x.comparators for h in id_loads(e)]
+                def ordered_ids(e):
+                    # an id under an equality / identity / membership test yields a truth value: `sum(1 for ev in L if ev.asset_id == i) > 0` orders a count
+                    out_ = []
+                    todo_ = [e]
+                    while todo_:
+                        y = todo_.pop()
+                        if isinstance(y, ast.Compare) and all(isinstance(op_, (ast.Eq, ast.NotEq, ast.Is, ast.IsNot, ast.In, ast.NotIn)) for op_ in y.ops):
+                            continue
+                        out_ += [h for h in id_loads(y) if h is y]
+                        todo_.extend(ast.iter_child_nodes(y))
+                    return out_
+                hits = [h for e in [x.left] + x.comparators for h in ordered_ids(e)]
                 if not hits:
                     continue
                 o.count()
